@@ -612,6 +612,12 @@ fn fixed(env: &Env, st: &mut Stats) -> CaseResult {
         for t in texts.iter().rev() {
             let _ = guard(|| parse_expression(t).is_ok());
         }
+        // rejected programs (groups left open, operators without operand) must leave no trace either
+        for n in 1..=300 {
+            for junk in [format!("{}a + ", "(".repeat(n)), format!("{}1 ,", "[".repeat(n % 40 + 1)), format!("{}x *", "f(".repeat(n % 30 + 1))] {
+                let _ = guard(|| parse_expression(&junk).is_ok());
+            }
+        }
         let second: Vec<(String, String)> = texts.iter().map(|t| exec_once(t, &sc)).collect();
         st.evals_add(texts.len() as u64 * 2);
         st.hist("depth-sweep");
